@@ -25,6 +25,38 @@ type Probe struct {
 	Keys []int // universe indexes
 }
 
+// CheckContents is the light observer: Size + full ordered iteration only.
+func CheckContents(m *Model, c Content, rd Reader) string {
+	exp := m.Entries(c)
+	if got := rd.Size(); got != int64(len(exp)) {
+		return fmt.Sprintf("Size()=%d, model has %d keys", got, len(exp))
+	}
+	i := 0
+	var bad string
+	_, err := rd.Iterate(func(k, v []byte) bool {
+		if i >= len(exp) {
+			bad = fmt.Sprintf("Iterate yields extra key %q", k)
+			return true
+		}
+		if !bytes.Equal(k, exp[i].K) || !bytes.Equal(v, exp[i].V) {
+			bad = fmt.Sprintf("Iterate item %d = (%q,%q), model has (%q,%q)", i, k, v, exp[i].K, exp[i].V)
+			return true
+		}
+		i++
+		return false
+	})
+	if err != nil {
+		return "Iterate error: " + err.Error()
+	}
+	if bad != "" {
+		return bad
+	}
+	if i != len(exp) {
+		return fmt.Sprintf("Iterate yielded %d items, model has %d", i, len(exp))
+	}
+	return ""
+}
+
 // CheckReads compares every read API of rd with the expected contents. Returns "" or the first discrepancy.
 func CheckReads(m *Model, c Content, rd Reader, probe *Probe) string {
 	exp := m.Entries(c)
